@@ -374,3 +374,122 @@ func swapClock(prev interface{}) map[string]uint64 {
 	out["other-edit"] = 1
 	return out
 }
+
+// ---- C09 under read errors: fault enumeration over the reads of one identity merge
+
+func faultChains(seed uint64, p, a, b int) (local, remote []*identVersion) {
+	mk := func(i int, who string) *identVersion {
+		return &identVersion{Fields: map[string]interface{}{
+			"version":   2,
+			"times":     map[string]uint64{"bugs-create": uint64(2 + i), "bugs-edit": uint64(5 + 3*i)},
+			"unix_time": 1_690_000_000 + 1000*i,
+			"name":      fmt.Sprintf("%s %d", who, i),
+			"email":     "carol@example.org",
+			"nonce":     model.Nonce(seed+uint64(i)+uint64(len(who))*1000, 20),
+		}}
+	}
+	for i := 0; i < p; i++ {
+		local = append(local, mk(i, "Carol"))
+	}
+	remote = cloneChain(local)
+	for i := 0; i < a; i++ {
+		local = append(local, mk(p+i, "Carol here"))
+	}
+	for i := 0; i < b; i++ {
+		remote = append(remote, mk(p+i, "Carol elsewhere"))
+	}
+	return local, remote
+}
+
+// identFaultCase: the victim holds a valid chain of p+a versions, the remote one of p+b versions
+// with the same first p; the merge of the remote is executed once without a fault and then once
+// for EVERY read call it issued, that read failing. Whatever the merge then reports, the local
+// chain is what it was, or (only when the remote extends it) the remote chain: never rewound,
+// never replaced.
+func (e *Engine) identFaultCase(p *sim.Plan, st *sim.Step, res *sim.RunResult, keep bool) ([]sim.Violation, string) {
+	pp, a, b := st.N/9+1, st.N/3%3, st.N%3
+	var vs []sim.Violation
+	reads := -1
+	for fault := -1; fault < reads || fault == -1; fault++ {
+		cw, err := newCaseWorld(p, st, keep)
+		if err != nil {
+			res.HarnessErr = "case world: " + err.Error()
+			return nil, "skipped"
+		}
+		local, remote := faultChains(p.RunSeed, pp, a, b)
+		id := model.Sha256Hex(local[0].blob())
+		ref := "refs/identities/" + id
+		bad := func() string {
+			head, err := storeChain(cw.pub, local, len(local)-1)
+			if err != nil {
+				return "store local chain: " + err.Error()
+			}
+			_ = cw.pub.UpdateRef(ref, head)
+			if _, err := cw.victimPull("hub0"); err != nil {
+				return "victim pull of its own chain: " + err.Error()
+			}
+			cw.w.Act(nil)
+			head, err = storeChain(cw.adv, remote, len(remote)-1)
+			if err != nil {
+				return "store remote chain: " + err.Error()
+			}
+			if err := cw.adv.UpdateRef(ref, head); err != nil {
+				return err.Error()
+			}
+			return ""
+		}()
+		if bad != "" {
+			cw.close()
+			res.HarnessErr = bad
+			return nil, "skipped"
+		}
+		before := identChainOf(cw.victim.Raw, id)
+		if len(strings.Split(before, ",")) != len(local) || strings.HasPrefix(before, "ERR") {
+			cw.close()
+			res.HarnessErr = fmt.Sprintf("the victim's chain is %q, %d versions wanted", before, len(local))
+			return nil, "skipped"
+		}
+		c := cw.victim.C
+		r0 := c.ReadCount()
+		if fault >= 0 {
+			c.ArmErr("read", fault, 1)
+		}
+		outs, pullErr := cw.victimPull("hub1")
+		fired := 0
+		if fault >= 0 {
+			fired = c.DisarmErr()
+		} else {
+			reads = c.ReadCount() - r0
+			if reads > 120 {
+				reads = 120
+			}
+		}
+		panics := verifrt.TakePanicsQuiesced(cw.goBase)
+		after := identChainOf(cw.victim.Raw, id)
+		want := identChainOf(cw.adv, id)
+		status := "none"
+		for _, o := range outs {
+			if o.Id == id {
+				status = statusName(o.Status)
+			}
+		}
+		cw.close()
+		res.Cases++
+		res.Probes["ident_merge_under_read_error_"+map[bool]string{true: "fired", false: "reference"}[fired > 0]]++
+		where := fmt.Sprintf("identity chains with %d common versions, %d more locally, %d more on the remote, via %s API, read call %d of the merge failing: ", pp, a, b, st.T, fault)
+		for _, pr := range panics {
+			vs = append(vs, sim.Violation{Property: p.Property, Kind: "panic", Detail: where + fmt.Sprintf("panic in %s: %s", pr.Site, pr.Value)})
+		}
+		if after != before && !(a == 0 && after == want) {
+			kind := "history-not-append-only"
+			if a > 0 && b > 0 {
+				kind = "diverged-changed-local"
+			}
+			vs = append(vs, sim.Violation{Property: p.Property, Kind: kind, Detail: where + fmt.Sprintf("the local chain went from [%s] to [%s] (remote [%s], merge reported %q, pull error %v)", before, after, want, status, pullErr)})
+		}
+		if len(vs) > 0 {
+			return vs, "fault"
+		}
+	}
+	return vs, fmt.Sprintf("reads=%d", reads)
+}
